@@ -138,7 +138,7 @@ def uncompilable_sids(src):
     return bad
 
 
-WHY_OF = {"C08": {"bytes"}, "C07": {"len"}, "C09": {"dec:same", "dec:wider", "dec:indef", "dec:indefall", "dec:wideall", "dec:badtag", "dec:missing", "dec:unkvar", "panic"}, "C10": {"dec:fwd", "dec:bwd", "dec:xfwd", "dec:xbwd"}}
+WHY_OF = {"C08": {"bytes"}, "C07": {"len"}, "C09": {"dec:same", "dec:wider", "dec:indef", "dec:indefall", "dec:wideall", "dec:badtag", "dec:missing", "dec:unkvar", "panic"}, "C10": {"dec:fwd", "dec:bwd", "dec:xfwd", "dec:xbwd", "dec:fwdany"}}
 
 
 def replay(ver, wd, only):
